@@ -190,15 +190,15 @@ EXTRA = {
     'C02': 'identifier populations around the points where generated names grow or wrap (26, 52, 702, 728) as globals, '
            'fields, methods, labels; names differing only in letter case; CLI (.p8 and .p8.png outputs) with each option and with both together',
     'C03': 'overwrite / re-save histories on one path, Lua lines that merely contain a header-like word, every final byte, '
-           'text after every byte that changes when re-lexed, PICO-8 default rows; read-back by file name as well as through the formatter; carts holding every ordered pair of C06 string atoms in both quote kinds; single lines of 72 000+ UTF-8 bytes; one file named through several path spellings and a same-named file in another directory',
+           'text after every byte that changes when re-lexed, PICO-8 default rows; read-back by file name as well as through the formatter; carts holding every ordered pair of C06 string atoms in both quote kinds; single lines of 72 000+ UTF-8 bytes; one file named through several path spellings and a same-named file in another directory; a cart loaded by name, edited through every route (map cells 32..63, write_cart_data, pokes, setters), saved and read back',
     'C04': 'raw capacity texts in both endings, code of 2^14..2^17 characters, sources ending in 0-4 newlines, comparison '
            '"one supplied newline per read, nothing lost"; _update60 carts whose last block straddles the end; label source named in three ways; existing destinations that are pictures but not loadable carts',
     'C05': 'decoder from far states: a reference at every offset 1..3135 after 3300 decoded bytes, declared lengths around '
            '2^15 and 2^16, NUL and every other byte value as a literal, histories of several texts in one process, code area under several version bytes; every text also handed over in a bytearray (same area, buffer unchanged)',
     'C06': 'ordered pairs of string literals in one source, all \\xhh spellings, CR / CR LF continuations, CLI batches '
-           '(writep8, build from .p8 and from .lua files with every kind of ending); escaped backslash followed by the digits of padded escapes',
+           '(writep8, build from .p8 and from .lua files with every kind of ending); escaped backslash followed by the digits of padded escapes; the same object rendered again after a pure-Lua listing',
     'C07': 'the same programs through real .p8 and .p8.png files (file.from_file) and through `p8tool listtokens`; numeric '
-           'literal grids; token-count content independence and `p8tool stats`; generator feed',
+           'literal grids; token-count content independence and `p8tool stats`; generator feed; single lexical items of 2^k +- 6 bytes (k = 8..15) of every kind',
     'C08': 'chain and local-depth families, re-use of one Lua object across feeds (incl. line-scoped statements), '
            '`p8tool printast` against the library tree; one Parser object re-used after rejected programs; label names re-used in sibling blocks; flat programs of 70..1100 (4200) repeated statements',
     'C09': 're-walk of one parsed object (same option dict) by formatter and tree echo writer, lone-CR layouts, chain family; multi-line literals whose inner lines end in blanks',
@@ -206,25 +206,25 @@ EXTRA = {
            'widths 0-8; up to 18/40 nested blocks incl. table fields whose values span lines; every program also one token per line; CLI widths on .p8 and .p8.png carts',
     'C11': 'entries file.to_file, p8tool luafmt [--overwrite], luamin, writep8, build; each fault also raised as OSError, '
            'FileNotFoundError, ValueError, MemoryError, KeyboardInterrupt, SystemExit at first/middle/last step; an '
-           'unfaulted write after the failures must give the clean file; staging file cannot be created / fails when rewound; --debug and default verbosity; zero-byte destination; oversize code (compressible / incompressible) as failure source',
+           'unfaulted write after the failures must give the clean file; staging file cannot be created / fails when rewound; --debug and default verbosity; zero-byte destination; explicit label source; oversize code (compressible / incompressible) as failure source',
     'C12': 'require in 9 call spellings, nested require from a module in a subdirectory, ~ and $HOME, non-UTF-8 bytes, '
-           'siblings differing from a root only in letter case, backslash spellings, directory names with pattern characters, load histories over changing cwd / HOME; builds naming another section source in another directory; canary files directly below the file system root as an environment answer the harness owns (isfile/exists/open); project directories whose own names hold ?, ;, %, *, [ ]',
-    'C13': 'sparse .p8 sources (sections left out), sources re-saved between builds of one process, relative path spellings, dotted / odd file names, empty and directory paths, sources that exist but do not load (syntax error, damaged header, not a PNG, broken include), programs too large for a .p8.png OUT',
+           'siblings differing from a root only in letter case, backslash spellings, directory names with pattern characters, load histories over changing cwd / HOME; builds naming another section source in another directory; canary files directly below the file system root as an environment answer the harness owns (isfile/exists/open); project directories whose own names hold ?, ;, %, *, [ ]; every build run from a canary-filled working directory',
+    'C13': 'sparse .p8 sources (sections left out), sources re-saved between builds of one process, relative path spellings, dotted / odd file names, empty and directory paths, sources that exist but do not load (syntax error, damaged header, not a PNG, broken include), programs too large for a .p8.png OUT, an existing OUT whose text has CR LF / a byte order mark / an altered header line',
     'C14': 'sibling packages x game-loop placements, nested load paths via argument / environment / both, odd package '
            'names in every literal spelling, require in every expression position, decoys of the game-loop rule, 40-package star and chain, names differing in letter case; line-scoped statements (? print, short if, line comment) directly before a left-out game-loop function whose end shares its line with more code; use_game_loop=false spelled out; re-builds onto the cart the previous build wrote',
-    'C15': 'every byte and every byte pair through real .p8 files at 8 cart versions (also through #include), UTF-8 look-alike byte runs, one-line payloads of 10 922..65 533 characters; every sequence <=3 (4) of reads of well-formed / malformed .p8 files and a write in one process; unterminated last lines ending in each special byte',
+    'C15': 'every byte and every byte pair through real .p8 files at 8 cart versions (also through #include), UTF-8 look-alike byte runs, one-line payloads of 10 922..65 533 characters; every sequence <=3 (4) of reads of well-formed / malformed .p8 files and a write in one process; unterminated last lines ending in each special byte; a child process with an ASCII locale writing every glyph',
     'C16': 'whole .p8 files in the shape PICO-8 saves (every subset of sections, whole / truncated, blank-line placements, '
            'versions incl. 0) read one after the other in one process in four orders; every sequence <=3 of writes of one '
            'Game over {.p8, .p8.png}; rows as list / tuple / iterator / generator; last row / file without its final newline; every map cell (rows 0..63) of each loaded file through the Map object',
     'C17': 'carts as the loaders hand them out (120 section orders, 32 subsets, short sections, .p8.png) with a 50-edit '
            'history; twin carts (second load of the same file, from_bytes of to_bytes, shared caller buffers, label from gfx); depth-1 sweeps over every id / cell / note, pixel rows as lists / tuples / iterators / generators',
     'C18': 'histories: section objects replaced between writes, aliasing constructors, carts loaded from full / short / '
-           'sparse / blank-line .p8 files and .p8.png, twin loads, oversize regions, a write at every address; the data argument being a region\'s live storage / a memoryview of it / a caller\'s bytearray',
+           'sparse / blank-line .p8 files and .p8.png, twin loads, oversize regions, a write at every address; the data argument being a region\'s live storage / a memoryview of it / a caller\'s bytearray; writes interleaved with edits made by other routes',
     'C19': 'all ordered pairs of 16 comment spellings (levelled, multi-line, degenerate) x separators, comments in every '
-           'pair gap below 3 headers, CLI incl. comments that mention #include; block comments with empty lines; every multi-line source also one line per chunk; header comment lines ending in blanks, and holding low-range / high-range glyphs, through the CLI',
+           'pair gap below 3 headers, CLI incl. comments that mention #include; block comments with empty lines; every multi-line source also one line per chunk; header comment lines ending in blanks, and holding low-range / high-range glyphs, through the CLI; header comments arriving in #include files',
     'C20': 'include spellings the recogniser accepts, a 13-tab cart with multi-digit selectors, CR LF separator lines, the '
            'cart named through 7 path spellings, a cart below the PICO-8 carts folder with decoys one level up, targets '
-           're-saved between loads, symlinked directory / target, names with an extension-like piece, glyph bytes in included carts, included .lua files with CR LF / lone CR',
+           're-saved between loads, symlinked directory / target, names with an extension-like piece, glyph bytes in included carts, included .lua files with CR LF / lone CR, upper-case names next to lower-case twins',
 }
 
 PENDING = {
